@@ -14,6 +14,10 @@
                         kept the task Allocated on the node (former known finding
                         C07-session-allocate-dispatch-refused-keeps-allocation)
 
+     (e) OPEN           three known findings of the audit round (undecided task reaches the binder;
+                        failed placement outside the call sites' precondition; failed
+                        Session.Allocate keeps its argument Allocated)
+
    Everything is evaluated by vm_compute. *)
 From stdpp Require Import gmap.
 From Coq Require Import ZArith List.
@@ -602,7 +606,78 @@ Example ssn_allocate_dispatch_refused_hist :
     = Some (Pending, None).
 Proof. vm_compute. repeat split; reflexivity. Qed.
 
+(* ====================================================================== *)
+(* (e) OPEN known findings (audit round): three clauses of the property    *)
+(*     text that are false on the faithful model AND on the Go code (laws  *)
+(*     106 / 107 / 108 of C07/Entry.v reproduce them on the Go dumps).     *)
+(* ====================================================================== *)
+
+(* job 1 with two Pending tasks (t1, t5) and the Running t2; job 2 as in ex_sess *)
+Definition w_tasks : list task_spec :=
+  ex_tasks ++ [mkTaskSpec 5 1 1 0 500 500 0 Pending None true].
+Definition w_sess : sess := build ex_eps ex_nodes ex_jobs w_tasks.
+
+(* C07-session-allocate-dispatches-open-statement-task (session.go, Session.Allocate dispatch
+   loop): statement 1 allocates t1 and stays open; Session.Allocate of t5 (same job, JobReady)
+   hands BOTH to the binder; the later Discard of statement 1 un-allocates t1 in the session
+   while the binder keeps it.  The invariant holds throughout. *)
+Theorem undecided_reaches_binder_refuted :
+  exists s sid t1 t5 nid,
+    okb s = true /\
+    let s1 := run ex_eps s [OAllocate sid t1 nid; OSetFaults [] [] [] true; OSsnAllocate t5 nid] in
+    okb s1 = true /\
+    map op_task (default [] (stmts s1 !! sid)) = [t1] /\
+    map fst (binds s1) = [t5; t1] /\
+    task_view s1 t1 = Some (Binding, Some nid) /\
+    let s2 := run ex_eps s1 [ODiscard sid] in
+    okb s2 = true /\ task_view s2 t1 = Some (Pending, None) /\ copy_status s2 nid t1 = None /\
+    map fst (binds s2) = [t5; t1].
+Proof. exists w_sess, 1%positive, 1%positive, 5%positive, 1%positive. vm_compute. repeat split; reflexivity. Qed.
+
+(* C07-failed-placement-outside-precondition-not-restored (statement.go deferred rollback,
+   session.go revertPlacement): outside the call sites' precondition the node CAN refuse the task,
+   and the failed call then leaves a trace.
+   (i)  t4 is Pipelined on n2 by statement 1; Statement.Allocate t4 n2 on statement 2 fails
+        ("already on node") and its rollback removes the older copy and resets t4 to Pending,
+        while statement 1 still records its Pipeline;
+   (ii) Statement.Allocate of the Running t2 on its own node fails and leaves t2 Pending, off the node;
+   (iii) Session.Allocate of the Pipelined t4 fails, t4 is Pending but the node keeps the copy. *)
+Theorem failed_place_on_node_refuted :
+  (let s := run ex_eps ex_sess [OPipeline 1 4 2] in
+   snd (step ex_eps s (OAllocate 2 4 2)) = RErr /\
+   let s' := fst (step ex_eps s (OAllocate 2 4 2)) in
+   okb s = true /\ okb s' = true /\ sess_sameb s s' = false /\
+   task_view s 4 = Some (Pipelined, Some 2%positive) /\ task_view s' 4 = Some (Pending, None) /\
+   copy_status s 2 4 = Some Pipelined /\ copy_status s' 2 4 = None /\
+   map op_task (default [] (stmts s' !! 1%positive)) = [4%positive]) /\
+  (snd (step ex_eps ex_sess (OAllocate 2 2 1)) = RErr /\
+   let s' := fst (step ex_eps ex_sess (OAllocate 2 2 1)) in
+   okb s' = true /\ sess_sameb ex_sess s' = false /\ task_view s' 2 = Some (Pending, None) /\ copy_status s' 1 2 = None) /\
+  (let s := run ex_eps ex_sess [OPipeline 1 4 2] in
+   snd (step ex_eps s (OSsnAllocate 4 2)) = RErr /\
+   let s' := fst (step ex_eps s (OSsnAllocate 4 2)) in
+   okb s' = true /\ sess_sameb s s' = false /\ task_view s' 4 = Some (Pending, None) /\ copy_status s' 2 4 = Some Pipelined).
+Proof. vm_compute. repeat split; reflexivity. Qed.
+
+(* C07-session-allocate-error-keeps-argument-allocated: t1 is placed by Session.Allocate while
+   the job is not ready; then the cache refuses t1 and Session.Allocate t5 completes the job:
+   the call fails, t1 is rolled back, and the task the call was made with stays Allocated. *)
+Theorem failed_ssn_allocate_keeps_argument_refuted :
+  exists s t1 t5 nid,
+    okb s = true /\
+    let s1 := run ex_eps s [OSetFaults [] [] [] false; OSsnAllocate t1 nid; OSetFaults [] [t1] [] true] in
+    task_view s1 t5 = Some (Pending, None) /\ on_no_node s1 t5 = true /\
+    snd (step ex_eps s1 (OSsnAllocate t5 nid)) = RErr /\
+    let s2 := fst (step ex_eps s1 (OSsnAllocate t5 nid)) in
+    okb s2 = true /\ task_view s2 t1 = Some (Pending, None) /\
+    task_view s2 t5 = Some (Allocated, Some nid) /\ copy_status s2 nid t5 = Some Allocated /\
+    binds s2 = [] /\ sess_sameb s1 s2 = false.
+Proof. exists w_sess, 1%positive, 5%positive, 1%positive. vm_compute. repeat split; reflexivity. Qed.
+
 Print Assumptions unevict_prefix_refuted.
+Print Assumptions undecided_reaches_binder_refuted.
+Print Assumptions failed_place_on_node_refuted.
+Print Assumptions failed_ssn_allocate_keeps_argument_refuted.
 Print Assumptions unevict_current_restores_bound.
 Print Assumptions job_del_prefix_refuted.
 Print Assumptions job_del_prefix_session_refuted.
